@@ -12,6 +12,8 @@ package main
 import (
 	"encoding/hex"
 	"fmt"
+	"github.com/oasisprotocol/oasis-core/go/common/entity"
+	registry "github.com/oasisprotocol/oasis-core/go/registry/api"
 	"os"
 	"path/filepath"
 	"regexp"
@@ -158,7 +160,18 @@ func runCase(c chainsim.Case, rep chainsim.Reporter, scratch string) {
 				tx.Nonce++ // would be the next valid nonce after the victim executed
 			}
 			for _, fc := range forgeCtx {
-				out = append(out, &chainsim.GenTx{Raw: chainsim.ForgeSignedTx(victim.Signer, &tx, fc), Method: victim.Method, Intent: "cross-context", Signer: victim.Signer, Note: fc})
+				raw := chainsim.ForgeSignedTx(victim.Signer, &tx, fc)
+				// A signature made for the entity registration domain is first shown to the handler
+				// that verifies that domain (inside somebody else's transaction, where it verifies
+				// and then fails to decode as an entity), and only then presented as an envelope.
+				if strings.Contains(fc, "register entity") {
+					var st transaction.SignedTransaction
+					if cbor.Unmarshal(raw, &st) == nil {
+						out = append(out, g.CarrierTx(registry.MethodRegisterEntity, &entity.SignedEntity{Signed: st.Signed}))
+						attacks["cross-context-primed"]++
+					}
+				}
+				out = append(out, &chainsim.GenTx{Raw: raw, Method: victim.Method, Intent: "cross-context", Signer: victim.Signer, Note: fc})
 			}
 			attacks["cross-context"] += len(out)
 		case 2:
